@@ -334,18 +334,29 @@ fn seq_of(mut idx: u64, len: usize, alphabet: &[Sym]) -> Vec<Sym> {
 enum PlanSym {
     Full,
     Topo,
-    RoutesX,
-    RoutesY,
+    Routes(u8),
     Drain,
 }
-const PLAN_ALL: [PlanSym; 5] = [PlanSym::Full, PlanSym::Topo, PlanSym::RoutesX, PlanSym::RoutesY, PlanSym::Drain];
+const PLAN_ALL: [PlanSym; 8] = [PlanSym::Full, PlanSym::Topo, PlanSym::Routes(0), PlanSym::Routes(1), PlanSym::Routes(2), PlanSym::Routes(3), PlanSym::Routes(4), PlanSym::Drain];
+
+/// client-routes pair sets of sizes 0..3: empty, {a}, {a,b} (superset of 1), {b,c} (disjoint from 1, overlaps 2), {a,b,c} (superset of all)
+fn route_shape(i: u8) -> Vec<(String, u32)> {
+    let (a, b, c) = (("c1".to_string(), 1u32), ("c1".to_string(), 2u32), ("c2".to_string(), 3u32));
+    match i {
+        0 => vec![],
+        1 => vec![a],
+        2 => vec![a, b],
+        3 => vec![b, c],
+        _ => vec![a, b, c],
+    }
+}
+const ROUTE_NAMES: [&str; 5] = ["note_client_routes({})", "note_client_routes({a})", "note_client_routes({a,b})", "note_client_routes({b,c})", "note_client_routes({a,b,c})"];
 impl PlanSym {
     fn name(self) -> &'static str {
         match self {
             PlanSym::Full => "note_full_needed",
             PlanSym::Topo => "note_topology",
-            PlanSym::RoutesX => "note_client_routes(x)",
-            PlanSym::RoutesY => "note_client_routes(y)",
+            PlanSym::Routes(i) => ROUTE_NAMES[i as usize],
             PlanSym::Drain => "drain(start due fetches)",
         }
     }
@@ -366,13 +377,10 @@ fn run_plan(seq: &[PlanSym]) -> Result<(), (&'static str, String)> {
                 plan.note_topology();
                 topo = true;
             }
-            PlanSym::RoutesX => {
-                plan.note_client_routes(&[("c1".into(), 1), ("c1".into(), 2)]);
-                pairs.extend([("c1".to_string(), 1), ("c1".to_string(), 2)]);
-            }
-            PlanSym::RoutesY => {
-                plan.note_client_routes(&[("c1".into(), 2), ("c2".into(), 3)]);
-                pairs.extend([("c1".to_string(), 2), ("c2".to_string(), 3)]);
+            PlanSym::Routes(i) => {
+                let shape = route_shape(*i);
+                plan.note_client_routes(&shape);
+                pairs.extend(shape);
             }
             PlanSym::Drain => {
                 plan.drain();
@@ -410,21 +418,19 @@ fn run_plan(seq: &[PlanSym]) -> Result<(), (&'static str, String)> {
 enum StSym {
     NoteFull,
     NoteTopo,
-    NoteRoutesX,
-    NoteRoutesY,
+    NoteRoutes(u8),
     StartDue,
     DoneFull,
     DoneRoutes,
     DoneTopo,
 }
-const ST_ALL: [StSym; 8] = [StSym::NoteFull, StSym::NoteTopo, StSym::NoteRoutesX, StSym::NoteRoutesY, StSym::StartDue, StSym::DoneFull, StSym::DoneRoutes, StSym::DoneTopo];
+const ST_ALL: [StSym; 11] = [StSym::NoteFull, StSym::NoteTopo, StSym::NoteRoutes(0), StSym::NoteRoutes(1), StSym::NoteRoutes(2), StSym::NoteRoutes(3), StSym::NoteRoutes(4), StSym::StartDue, StSym::DoneFull, StSym::DoneRoutes, StSym::DoneTopo];
 impl StSym {
     fn name(self) -> &'static str {
         match self {
             StSym::NoteFull => "note_full_needed",
-            StSym::NoteTopo => "note_topology",
-            StSym::NoteRoutesX => "note_client_routes(x)",
-            StSym::NoteRoutesY => "note_client_routes(y)",
+            StSym::NoteTopo => "TOPOLOGY_CHANGE event",
+            StSym::NoteRoutes(i) => ["UPDATE_NODES event {}", "UPDATE_NODES event {a}", "UPDATE_NODES event {a,b}", "UPDATE_NODES event {b,c}", "UPDATE_NODES event {a,b,c}"][i as usize],
             StSym::StartDue => "start_due_fetches",
             StSym::DoneFull => "full fetch completes",
             StSym::DoneRoutes => "client-routes fetch completes",
@@ -440,6 +446,8 @@ struct StRef {
     need_full: bool,
     need_topo: bool,
     need_pairs: BTreeSet<(String, u32)>,
+    /// a client-routes request is owed (possibly listing no pair at all: an empty event still owes a fetch)
+    need_routes: bool,
     fl_full: bool,
     fl_routes: bool,
     fl_topo: bool,
@@ -449,8 +457,6 @@ struct StRef {
 fn run_starter(seq: &[StSym], stats: Option<&AtomicU64>) -> Option<Result<(), (&'static str, String)>> {
     let mut p = hook::StarterProbe::new();
     let mut m = StRef::default();
-    let x: Vec<(String, u32)> = vec![("c1".into(), 1), ("c1".into(), 2)];
-    let y: Vec<(String, u32)> = vec![("c1".into(), 2), ("c2".into(), 3)];
     // the sequence, then quiesce: complete everything, start, until nothing moves
     let mut steps: Vec<StSym> = seq.to_vec();
     let tail_from = steps.len();
@@ -466,18 +472,20 @@ fn run_starter(seq: &[StSym], stats: Option<&AtomicU64>) -> Option<Result<(), (&
                 m.need_full = true;
                 m.need_topo = false;
                 m.need_pairs.clear();
+                m.need_routes = false;
             }
             StSym::NoteTopo => {
-                p.note_topology();
+                p.topology_event();
                 if !m.need_full {
                     m.need_topo = true;
                 }
             }
-            StSym::NoteRoutesX | StSym::NoteRoutesY => {
-                let pairs = if *s == StSym::NoteRoutesX { &x } else { &y };
-                p.note_client_routes(pairs);
+            StSym::NoteRoutes(i) => {
+                let pairs = route_shape(*i);
+                p.client_routes_event(&pairs);
                 if !m.need_full {
-                    m.need_pairs.extend(pairs.iter().cloned());
+                    m.need_pairs.extend(pairs);
+                    m.need_routes = true;
                 }
             }
             StSym::StartDue => {
@@ -488,8 +496,9 @@ fn run_starter(seq: &[StSym], stats: Option<&AtomicU64>) -> Option<Result<(), (&
                         m = StRef { fl_full: true, ..StRef::default() };
                     }
                 } else if !m.fl_full {
-                    if !m.need_pairs.is_empty() && !m.fl_routes {
+                    if m.need_routes && !m.fl_routes {
                         m.fl_routes = true;
+                        m.need_routes = false;
                         m.need_pairs.clear();
                     }
                     if m.need_topo && !m.fl_topo {
@@ -620,8 +629,8 @@ fn main() {
                 let mut idx = i;
                 let seq: Vec<PlanSym> = (0..len)
                     .map(|_| {
-                        let s = PLAN_ALL[(idx % 5) as usize];
-                        idx /= 5;
+                        let s = PLAN_ALL[(idx % 8) as usize];
+                        idx /= 8;
                         s
                     })
                     .collect();
@@ -633,7 +642,7 @@ fn main() {
         });
     }
     // request side with the REAL starter step and completion handling
-    let st_len = r.args.extra_value("--starter-len").and_then(|s| s.parse().ok()).unwrap_or(r.tier().pick(6usize, 8usize));
+    let st_len = r.args.extra_value("--starter-len").and_then(|s| s.parse().ok()).unwrap_or(r.tier().pick(6usize, 7usize));
     let starters = AtomicU64::new(0);
     let starter_steps = AtomicU64::new(0);
     for len in 0..=st_len {
@@ -643,8 +652,8 @@ fn main() {
                 let mut idx = i;
                 let seq: Vec<StSym> = (0..len)
                     .map(|_| {
-                        let s = ST_ALL[(idx % 8) as usize];
-                        idx /= 8;
+                        let s = ST_ALL[(idx % 11) as usize];
+                        idx /= 11;
                         s
                     })
                     .collect();
@@ -700,8 +709,8 @@ fn main() {
          2 x merge_client_routes_update, up/down hints on 2 addresses, recv} (+ the no-client-routes session: 7 symbols), each followed by recv / drop sender / recv / recv. \
          transitions = merge operations applied + values received; states = distinct_nontrivial = distinct multisets-in-order of merges that were coalesced into ONE received value \
          (distinct pending-value histories); traces_validated_against_impl = 0 (single-threaded, deterministic, no schedule to replay). Request side: every word of length <= \
-         fetch_plan_max_length over FetchPlan::{note_full_needed, note_topology, note_client_routes x2, drain}; and every word of length <= starter_max_length over \
-         {note_full_needed, note_topology, note_client_routes x2, the production PendingFetches::start_due_fetches, completion of the full / client-routes / topology fetch \
+         fetch_plan_max_length over FetchPlan::{note_full_needed, note_topology, note_client_routes with the same five pair sets, drain}; and every word of length <= starter_max_length over \
+         {note_full_needed, a TOPOLOGY_CHANGE event and CLIENT_ROUTES_CHANGE:UPDATE_NODES events listing 0..3 pairs (empty, {a}, {a,b}, {b,c}, {a,b,c}: disjoint, overlapping, subset, superset - all through the production MetadataWorker::handle_server_event), the production PendingFetches::start_due_fetches, completion of the full / client-routes / topology fetch \
          through the production PendingFetches::poll} (words completing a fetch that is not in flight are skipped), each followed by start/complete-all until quiet: after \
          every step the plan owes exactly the work noted and not yet covered by a fetch started after the note, and the in-flight set is exactly what the starter must have started.",
     );
